@@ -347,7 +347,7 @@ pub fn expect_tag(exp: &mut Expected, p: &str, region: &[u8], it: &Item, kind: u
                     }
                 }
                 2 => exp.is(k("bt"), Val::Txt("text".into())),
-                x => exp.is(k("bt"), Val::Err(format!("Unknown framebuffer type {x}"))),
+                x => exp.is(k("bt"), Val::Err(format!("unknown-framebuffer-type:{x}"))),
             }
         }
         9 => {
@@ -433,7 +433,8 @@ pub fn expect_tag(exp: &mut Expected, p: &str, region: &[u8], it: &Item, kind: u
                 exp.u(k("ext_checksum"), b[off + 40] as u64);
             }
         }
-        16 => exp.is(k("dhcp"), Val::Txt(hex(&b[off + 8..off + size]))),
+        // observed through the derived Debug byte list (no accessor exists)
+        16 => exp.if_present(k("dhcp"), Val::Txt(hex(&b[off + 8..off + size]))),
         17 => {
             let d = le32(b, off + 8) as usize;
             let ver = le32(b, off + 12);
@@ -484,7 +485,7 @@ fn fb_getter_override(region: &[u8], it: &Item) -> Option<Val> {
         }
         1 => (buf_len < 6).then_some(Val::Panic),
         2 => None,
-        x => Some(Val::Err(format!("Unknown framebuffer type {x}"))),
+        x => Some(Val::Err(format!("unknown-framebuffer-type:{x}"))),
     }
 }
 
